@@ -1,6 +1,7 @@
 import RallyModel.Samples
 import RallyProofs.Samples
 import RallyProofs.SamplesFlush
+import RallyProofs.SamplesJoin
 /-!
 # C07 — every request sample reaches the metrics store exactly once
 
@@ -135,6 +136,61 @@ theorem periodic_postprocessing_never_starves (w p : Nat) (hw : 0 < w) (hp : 0 <
 theorem periodic_postprocessing_not_before (w p n : Nat) (h : n * w < p) : (wakes w p n 0).2 = 0 :=
   (wakes_not_before w p n 0 (by omega)).1
 
+/-! ### the step boundary: `Driver.joinpoint_reached` decides when the store is handed over -/
+
+/-- **step_boundary_hands_over_whole_store** — from ANY driver state (whatever periodic ticks, shipments or earlier steps left
+    behind — in particular with `raw_samples` empty because a periodic tick has just post-processed everything), the join point
+    message of the last worker is enabled and puts exactly one hand-over in flight that contains the WHOLE store plus what the
+    post-processing call at the join point kept; afterwards `raw_samples` and the store are empty, nothing is lost, and the
+    store is closed exactly at the last step. -/
+theorem step_boundary_hands_over_whole_store (c : DCfg) (d : DState) (hf : d.stepNo ≠ c.steps) (hw : d.completed + 1 = c.workers) :
+    ∃ d', dstep c d .joinpoint = some d' ∧ d'.s.d2r = d.s.d2r ++ [d.s.dstore ++ keep c.cfg.factor d.s.raw] ∧
+      d'.s.raw = [] ∧ d'.s.dstore = [] ∧ d'.lost = d.lost ∧ d'.stepNo = d.stepNo + 1 ∧ d'.completed = 0 ∧
+      d'.s.rstore = d.s.rstore ∧ d'.s.samplers = d.s.samplers ∧ d'.s.w2d = d.s.w2d ∧
+      (d'.closed = true ↔ (d.stepNo + 1 = c.steps ∨ d.closed = true)) := by
+  have hf' : c.finished d = false := by simpa [DCfg.finished] using hf
+  refine ⟨_, dstep_joinpoint_last c d hf' hw, rfl, rfl, rfl, rfl, rfl, rfl, rfl, rfl, rfl, ?_⟩
+  simp
+
+/-- **nothing_in_store_when_closed** — for every sequence of driver-layer events (any interleaving of requests, shipments,
+    deliveries, periodic ticks and join point messages, any number of workers and steps): no record is in the driver's store
+    when it is closed, and every accepted sample is still in exactly as many places as it was accepted. -/
+theorem nothing_in_store_when_closed (c : DCfg) (evs : List DEvent) (d : DState) (h : drun c dinit evs = some d) (a : Sid) :
+    d.lost = [] ∧ located a d.s = d.s.accepted.count a := by
+  obtain ⟨⟨es, hr⟩, hl⟩ := drun_run evs dinit d h
+  exact ⟨hl, sample_conservation c.cfg es d.s hr a⟩
+
+/-- **last_join_point_delivers_everything** — with the default factor: after ANY history `evs` of the driver layer (periodic
+    ticks anywhere, also between the last shipment and the last join point message) in which all workers but one have reported
+    the last join point and every sample has been shipped and received by the driver (a worker ships before it reports, messages
+    of one sender arrive in sending order), the last join point message followed by race control receiving the hand-overs in
+    flight leaves nothing anywhere: race control's store holds exactly the accepted samples, the store was empty when closed. -/
+theorem last_join_point_delivers_everything (c : DCfg) (hfac : c.cfg.factor = 1) (evs : List DEvent) (d : DState)
+    (h : drun c dinit evs = some d) (hq : d.s.samplers = []) (hw2 : d.s.w2d = [])
+    (hlast : d.stepNo + 1 = c.steps) (hw : d.completed + 1 = c.workers) :
+    ∃ d', drun c dinit (evs ++ [.joinpoint] ++ List.replicate (d.s.d2r.length + 1) (.pipe .deliverR)) = some d' ∧
+      drained d'.s ∧ d'.s.rstore.Perm d.s.accepted ∧ d'.lost = [] ∧ d'.closed = true ∧ c.finished d' = true := by
+  have hf' : c.finished d = false := by simp [DCfg.finished]; omega
+  let s1 : State := { d.s with raw := [], dstore := [], d2r := d.s.d2r ++ [d.s.dstore ++ keep c.cfg.factor d.s.raw],
+                               downsampled := d.s.downsampled ++ lose c.cfg.factor d.s.raw, fed := d.s.fed ++ d.s.raw }
+  let d1 : DState := { s := s1, completed := 0, stepNo := d.stepNo + 1, lost := d.lost,
+                       closed := (d.stepNo + 1 == c.steps) || d.closed }
+  have hj : dstep c d .joinpoint = some d1 := dstep_joinpoint_last c d hf' hw
+  obtain ⟨s4, hr4, c1, c2, c3, c4, c5, c6, c7, _, _, _⟩ := receive_stage c.cfg s1.d2r s1 rfl
+  have hlen : s1.d2r.length = d.s.d2r.length + 1 := by simp [s1]
+  rw [hlen] at hr4
+  have hd4 := drun_deliverR c (d.s.d2r.length + 1) d1 s4 hr4
+  have hrun : drun c dinit (evs ++ [.joinpoint] ++ List.replicate (d.s.d2r.length + 1) (.pipe .deliverR)) = some { d1 with s := s4 } := by
+    rw [drun_append, drun_append, h]
+    simp only [Option.bind_some, drun, hj]
+    exact hd4
+  obtain ⟨⟨es, hes⟩, hl⟩ := drun_run _ dinit _ hrun
+  have hdr : drained s4 := ⟨by rw [c2]; exact hq, by rw [c3]; exact hw2, by rw [c4], by rw [c5], c1⟩
+  refine ⟨_, hrun, hdr, ?_, hl, by simp [d1, hlast], by simp [DCfg.finished, d1, hlast]⟩
+  have hp := records_exact_at_end c.cfg hfac es s4 hes hdr.1 hdr.2.1 hdr.2.2.1 hdr.2.2.2.1 hdr.2.2.2.2
+  rw [c7] at hp
+  exact hp
+
 /-! ### non-vacuity (tests, labelled as tests) -/
 
 example : (run ⟨2, 2⟩ init [.request 0 1, .request 0 2, .request 0 3, .request 1 4, .ship 0, .deliverU 0, .ship 1, .deliverU 1,
@@ -147,5 +203,16 @@ example : flush (⟨[(1, 7), (0, 8), (1, 9)], [(0, [5])], [], [4], [[3]], [], []
 example : (recordsOf ⟨2, "t", "t", "composite", true, [("a", "search"), ("b", "search")]⟩).length = 5 := by decide
 
 example : wakes 1 30 29 0 = (29, 0) ∧ wakes 1 30 30 0 = (0, 1) ∧ wakes 1 30 95 0 = (5, 3) ∧ wakes 2 5 7 0 = (2, 2) := by decide +kernel
+
+-- the schedule of the missed change: two workers, two steps; in the last step a periodic tick post-processes everything between
+-- the last shipment's delivery and the last join point message — the hand-over still carries the samples
+example : (drun ⟨⟨8, 1⟩, 2, 2⟩ dinit [.joinpoint, .joinpoint, .pipe .deliverR, .pipe (.request 0 1), .pipe (.request 1 2), .pipe (.ship 0),
+    .pipe (.deliverU 0), .joinpoint, .pipe (.ship 1), .pipe (.deliverU 1), .pipe .postprocess, .joinpoint, .pipe .deliverR]).map
+    (fun d => (d.s.rstore, d.lost, d.closed, d.stepNo, d.s.raw ++ d.s.dstore)) = some ([1, 2], [], true, 2, []) := by decide
+
+example : ∃ d, drun ⟨⟨8, 1⟩, 2, 1⟩ dinit [.pipe (.request 0 1), .pipe (.ship 0), .pipe (.deliverU 0), .pipe .postprocess, .joinpoint] = some d ∧
+    d.s.samplers = [] ∧ d.s.w2d = [] ∧ d.stepNo + 1 = 1 ∧ d.completed + 1 = 2 ∧ d.s.dstore = [1] ∧ d.s.raw = [] := by decide
+
+example : dstep ⟨⟨8, 1⟩, 1, 1⟩ dinit (.pipe .handover) = none := by decide
 
 end C07
